@@ -27,6 +27,7 @@ UNITS_OF = {
 }
 
 
+AUTO_UNWIND = 6
 LEVEL_OF = {"C09": "other"}   # sequential proof of the lock discipline; interleavings by assumption
 
 
@@ -277,14 +278,21 @@ def run_check(prop, a, bdir, seed, t0):
             if prop not in f.props or not f.enforce:
                 continue
             missing = [l for l in f.loops if not re.search(r"#define\s+%s\b" % l, ctext)]
+            auto_unwind = None
             if missing and not f.unwind:
-                undecided.append("unannotated loop %s in %s" % (missing[0], f.name))
-                continue
+                if len(missing) == len(f.loops):
+                    # a function that has no loop contract at all (normally: no loop) now contains loops: they are unwound AUTO_UNWIND times with
+                    # unwinding assertions.  Real obligations failing within that bound are a violation; only the bound failing is undecided.
+                    auto_unwind = AUTO_UNWIND
+                else:
+                    undecided.append("unannotated loop %s in %s" % (missing[0], f.name))
+                    continue
             loops[f.name] = f.loops
             rep = [c for c in callees_of(f.text, contract_names, f.name) if c not in f.no_replace] + f.extra_replace
             defs = ["NITRO_ENF_%s=1" % f.name]
-            j = driver.Job(uname, f.name, "h_" + f.name, f.name, rep, [gen_c, har_c], defs, rec=f.rec, props=f.props, unwind=f.unwind)
-            if f.unwind:
+            j = driver.Job(uname, f.name, "h_" + f.name, f.name, rep, [gen_c, har_c], defs, rec=f.rec, props=f.props, unwind=f.unwind or auto_unwind)
+            j.auto_unwind = bool(auto_unwind)
+            if f.unwind or auto_unwind:
                 loops.pop(f.name, None)
             j.timeout = getattr(f, "timeout", None)
             j.unwind_fns = getattr(f, "unwind_fns", None)
@@ -388,6 +396,8 @@ def run_check(prop, a, bdir, seed, t0):
     violations = []
     known_lines = []
     for j in jobs:
+        if getattr(j, "auto_unwind", False) and j.status == "failed" and all("unwind" in r["name"] for r in j.failed):
+            j.status, j.reason = "undecided", "a loop without a loop contract needs more than %d iterations (bound of the automatic unwinding)" % AUTO_UNWIND
         flt = getattr(j, "only_for", {}).get(prop)
         if flt and j.status == "failed":
             # this function is evidence for the property only through some of its obligations (e.g. its frame condition):
